@@ -1918,7 +1918,12 @@ namespace awkward {
                                            bool ascending,
                                            bool stable) const {
     if (length() == 0 ) {
-     return shallow_copy();
+      if (parameter_equals("__array__", "\"string\"")  ||
+          parameter_equals("__array__", "\"bytestring\"")) {
+        // no strings: no positions (an empty array of positions, as for numbers)
+        return std::make_shared<NumpyArray>(Index64(0));
+      }
+      return shallow_copy();
     }
 
     if (offsets_.getitem_at_nowrap(0) != 0) {
